@@ -814,11 +814,13 @@ class PolyContrasts(Contrasts):
         n = len(levels)
         if not reduced_rank:
             return spsparse.eye(n).tocsc() if sparse else numpy.eye(n)
-        if self.scores and not len(self.scores) == n:
+        # (scores may be any sequence, including a numpy array)
+        has_scores = self.scores is not None and len(self.scores) > 0
+        if has_scores and not len(self.scores) == n:
             raise ValueError(
                 "`PolyContrasts.scores` must have the same cardinality as the categories."
             )
-        scores = self.scores or numpy.arange(n)
+        scores = self.scores if has_scores else numpy.arange(n)
         coding_matrix = poly(scores, degree=n - 1)
         if sparse:
             return spsparse.csc_matrix(coding_matrix)
